@@ -1,3 +1,136 @@
-use crate::run::{Ctx, Ev};
+//! C06 - liquidation only of under-margined positions, with exact payouts.
+use serde_json::json;
+
+use super::engine_refs::*;
+use crate::refmodel::*;
+use crate::run::{pq_field_i, pq_field_u, pq_u, Ctx, Ev, PreQ};
+use crate::types::*;
 use crate::world::World;
-pub fn step(_ctx: &Ctx, _w: &World, _ev: &mut Ev) {}
+
+pub struct LiqRef {
+    pub ratio: i128,
+    pub binding: &'static str,
+    pub over_spread: bool,
+}
+
+/// the liquidation margin ratio as the statement defines it, from pre-state queries
+pub fn ratio_liq(preq: &PreQ, margin: U, f: i128, spot_price: U, d: U) -> Option<LiqRef> {
+    let sn = pq_field_u(preq, "pnl_spot", "position_notional")?;
+    let sp = pq_field_i(preq, "pnl_spot", "unrealized_pnl")?;
+    let tn = pq_field_u(preq, "pnl_twap", "position_notional")?;
+    let tp = pq_field_i(preq, "pnl_twap", "unrealized_pnl")?;
+    let (mut which, n, pl) = if sp.unsigned_abs() > tp.unsigned_abs() { ("twap", tn, tp) } else { ("spot", sn, sp) };
+    let mut r = ratio(margin, pl, f, n, d)?;
+    let mut over = false;
+    if let Some(op) = pq_u(preq, "underlying") {
+        if op > 0 {
+            let dev = smul_div(spot_price as i128 - op as i128, d as i128, op as i128)?;
+            over = dev.unsigned_abs() >= d / 10;
+            if over {
+                let on = pq_field_u(preq, "pnl_oracle", "position_notional")?;
+                let opl = pq_field_i(preq, "pnl_oracle", "unrealized_pnl")?;
+                let ro = ratio(margin, opl, f, on, d)?;
+                if ro > r {
+                    r = ro;
+                    which = "oracle";
+                }
+            }
+        }
+    }
+    Some(LiqRef { ratio: r, binding: which, over_spread: over })
+}
+
+pub fn step(ctx: &Ctx, w: &World, ev: &mut Ev) {
+    if w.cfg.kind != WorldKind::Standard {
+        return;
+    }
+    let (v, trader) = match &ctx.step.op {
+        Op::Liquidate { vamm, trader, .. } => (*vamm, w.resolve(trader)),
+        _ => return,
+    };
+    let d = w.d;
+    let liquidator = w.resolve(&ctx.step.actor);
+    let eng = match &ctx.pre.eng {
+        Some(e) => e.clone(),
+        None => return,
+    };
+    let pos = match ctx.pre.position(v, &trader) {
+        Some(p) if p.size != 0 => p.clone(),
+        _ => {
+            ev.eval(false, &("nopos", ctx.out.ok), || json!({}));
+            if ctx.out.ok {
+                ev.violation("only_when_under", "no_position", json!({"trader": trader}));
+            }
+            return;
+        }
+    };
+    let f = match owed(ctx.pre, v, &trader, d) {
+        Some(x) => x,
+        None => return,
+    };
+    let lr = match ratio_liq(ctx.preq, pos.margin, f, ctx.pre.vamms[v].spot, d) {
+        Some(x) => x,
+        None => {
+            ev.count("ratio_unavailable");
+            // without the reference ratio nothing can be said about "only when under"
+            return;
+        }
+    };
+    let side = if pos.size > 0 { "long" } else { "short" };
+    let m = eng.maintenance as i128;
+    let bucket = if lr.ratio > m { if lr.ratio == m + 1 { "maint_plus_1" } else { "above" } } else if lr.ratio == m { "at" } else if lr.ratio >= 0 { "below_pos" } else { "negative" };
+    let pclass = if eng.partial == 0 { "p0" } else if eng.partial >= d { "p1" } else { "pfrac" };
+    ev.eval(true, &(ctx.out.ok, lr.binding, bucket, pclass, side), || {
+        json!({"liquidate": trader, "ratio_liq": lr.ratio.to_string(), "maintenance": m.to_string(), "binding": lr.binding, "over_spread": lr.over_spread, "accepted": ctx.out.ok, "partial_ratio": eng.partial.to_string()})
+    });
+    ev.count(&format!("liq_attempt/{}/{}", bucket, if ctx.out.ok { "ok" } else { "err" }));
+    ev.count(&format!("liq_binding/{}", lr.binding));
+    if !ctx.out.ok {
+        return;
+    }
+    if lr.ratio > m {
+        ev.violation("only_when_under", &format!("{},{},{}", lr.binding, side, if eng.initial == eng.maintenance { "init_eq_maint" } else { "init_ne_maint" }), json!({"ratio_liq": lr.ratio.to_string(), "maintenance": m.to_string()}));
+    }
+    let q = quote_moved(ctx, v);
+    let penalty = mul_div(q, eng.liq_fee, d).unwrap_or(0);
+    let half = penalty / 2;
+    let engine = w.addrs.engine.clone();
+    let ifund = w.addrs.insurance_fund.clone();
+    let after = ctx.post.position(v, &trader).cloned();
+    let quote_branch = pq_u(ctx.preq, "out_partial").map(|x| x > pos.notional).unwrap_or(false);
+    match after {
+        None => {
+            // full liquidation
+            ev.count("full_liquidation");
+            let realised = pnl(pos.dir, q, pos.notional).unwrap_or(0);
+            let e = pos.margin as i128 + realised - f;
+            let got = ctx.sent(&engine, &liquidator);
+            if got != half {
+                ev.violation("full_payout", &format!("liquidator,{}", side), json!({"liquidator_received": got.to_string(), "expected": half.to_string(), "quote_exchanged": q.to_string()}));
+            }
+            let to_if = ctx.sent(&engine, &ifund);
+            let exp_if = (e.max(0) - half as i128).max(0) as u128;
+            if to_if != exp_if {
+                let diff = to_if as i128 - exp_if as i128;
+                let shape = if diff == f { "diff_eq_funding" } else { "other" };
+                ev.violation("full_payout", &format!("insurance_fund,{},{}", side, shape), json!({"to_insurance_fund": to_if.to_string(), "expected": exp_if.to_string(), "equity": e.to_string(), "liquidator_fee": half.to_string()}));
+            }
+            if trader != liquidator && (ctx.inflow(&trader) != 0 || ctx.delta(&trader) != 0) {
+                ev.violation("full_trader_nothing", side, json!({"trader_received": ctx.inflow(&trader).to_string()}));
+            }
+        }
+        Some(p2) => {
+            ev.count("partial_liquidation");
+            let a = mul_div(pos.size.unsigned_abs(), eng.partial, d).unwrap_or(0);
+            let exp = pos.size.unsigned_abs() - a;
+            if p2.size.signum() * pos.size.signum() < 0 || p2.size.unsigned_abs() != exp {
+                ev.violation("partial_size", &format!("{},{}", side, if quote_branch { "quote_branch" } else { "base_branch" }), json!({"size_pre": pos.size.to_string(), "size_post": p2.size.to_string(), "expected_abs": exp.to_string()}));
+            }
+            let got = ctx.sent(&engine, &liquidator);
+            let to_if = ctx.sent(&engine, &ifund);
+            if got != half || to_if != half {
+                ev.violation("partial_payout", &format!("{},{}", side, if quote_branch { "quote_branch" } else { "base_branch" }), json!({"liquidator_received": got.to_string(), "insurance_fund_received": to_if.to_string(), "expected_each": half.to_string()}));
+            }
+        }
+    }
+}
